@@ -20,14 +20,17 @@ TECHNIQUE = 'model checking: bounded-exhaustive enumeration of request sequences
 LEVEL_TEXT = ('every request sequence up to the length bound over every (plate, MJD, fibre) of each synthetic tree was read through the real '
               'readspec (real FITS I/O) in every calling convention of the menu, and every returned cell compared with its provenance code; '
               'spec_append on every pair of shapes up to 2x4 and every shift -3..3')
-LEVEL_NOTE = ('trees are small (<= 4 fibres, <= 9 pixels, <= 3 plate-MJD files); align=True, znum and spZall are outside the bound; '
+LEVEL_NOTE = ('trees are small (<= 4 fibres, <= 9 pixels, <= 3 plate-MJD files per tree); align=True, znum and spZall are outside the bound; '
               'FITS files are written by astropy, which is trusted; number_of_fibers is only held to the plate list for BOSS-era MJDs')
 RULE = ('readspec: all sequences of length 1..L (L=3 quick, 4 thorough) over all (plate, MJD, fibre) triples of tree a (3 files, 2 MJDs of one plate, '
-        '6/6/8 pixels), L-1 for trees b (5/9/7 pixels), c (one file), in vector convention; all sequences up to length 2 (3 thorough) in every other '
-        'calling/location convention that applies (lists, scalar plate, scalar fibre, all scalar, MJD omitted, fibre omitted, env tree, kwargs, '
-        'topdir kwarg with a decoy env tree, numeric RUN2D, photoPlate in SPECTRO_MATCH, partial trees). Non-trivial = more than one distinct file requested, '
-        'or request order differs from the file-grouped order, or a repeated triple. spec_append: all shapes (1..2 x 1..4)^2 x pixshift -3..3 x dtype; '
-        'non-trivial = shapes differ or shift != 0. Helpers: all plate vectors up to length 3. Distinct = distinct (tree, convention, request sequence).')
+        '6/6/8 pixels), tree b (3 plates, 5/9/7 pixels, different COEFF0/COEFF1) and tree c (one file) in the vector convention; all sequences up to '
+        'length 2 (3 thorough) in every other calling convention that can express them (lists, int64, scalar plate, scalar fibre, all scalar, numpy '
+        'scalars, MJD omitted, fibre omitted) and location convention (path=, path+run kwargs, env tree, env+kwargs, topdir kwarg with a decoy env tree, '
+        'numeric RUN2D, photoPlate in SPECTRO_MATCH, optional env unset) on trees a, b, c, e (five-digit plate) and dz/dp (optional files missing for one plate). '
+        'Non-trivial = more than one distinct file requested, or request order differs from the file-grouped order, or a repeated triple. '
+        'spec_append: all shapes (1..2 x 1..4)^2 x pixshift -3..3 x 3 dtypes; non-trivial = shapes differ or shift != 0. '
+        'Helpers spec_path/latest_mjd/number_of_fibers: all plate vectors up to length 3 x 3 argument forms x 4 location conventions. '
+        'Distinct = distinct (tree, location, convention, request sequence).')
 ASSUMPTIONS = ['provenance codes are integers < 2^17, exact in float32 and int32',
                'output width may be any value >= the largest requested pixel count; everything right of a spectrum must be 0',
                'loglam is only checked on the first NAXIS1 pixels of each row',
